@@ -408,6 +408,7 @@ func initProperties() {
 				use("WIDTHTABLE", "widths agree", nil),
 				use("CLAUSEWIDTH", "fixed-width clauses use the label's width", thriftPkg),
 				use("CURSORREL", "the cursor only moves relatively", thriftPkg),
+				use("GOKINDAGREE", "scalar writer and container element classifier accept the same Go types", nil),
 				use("HDRFIRST", "header first", thriftPkg),
 				use("STRUCTPAIR", "STOP written", thriftPkg),
 				use("CASTUSED", "cast value written", thriftPkg),
